@@ -642,3 +642,79 @@ class Real(PackedOps, RandOps):
             raise NoMap(kv.get('f', 'f'))
         self.pool[kv['r']] = HealSparseMap.read(self.files[kv.get('f', 'f')], nside_coverage=2 ** int(kv['covord']))
         return 'ok'
+
+    # ---- geometry ---------------------------------------------------------------------
+    def make_geom(self, kv, m):
+        par = [float(t) for t in kv['params'].split(':')]
+        if 'bits' in kv:
+            value = [int(t) for t in split_list(kv['bits'])]
+        else:
+            v = dec_val(kv['value'])
+            if isinstance(v, bool):
+                value = v
+            elif kv.get('vtype', 'int') == 'flt':
+                value = float(v)
+            else:
+                value = int(v)
+        kw = {'value': value}
+        if 'render' in kv:
+            kw['nside_render'] = 2 ** int(kv['render'])
+        k = kv['shape']
+        if k == 'circle':
+            return healsparse.Circle(ra=par[0], dec=par[1], radius=par[2], **kw)
+        if k == 'ellipse':
+            return healsparse.Ellipse(ra=par[0], dec=par[1], semi_major=par[2], semi_minor=par[3], alpha=par[4], **kw)
+        if k == 'box':
+            return healsparse.Box(ra1=par[0], ra2=par[1], dec1=par[2], dec2=par[3], **kw)
+        if k == 'polygon':
+            return healsparse.Polygon(ra=par[0::2], dec=par[1::2], **kw)
+        raise BadOp(k)
+
+    def op_geom(self, pos, kv):
+        m = self.m(pos[0])
+        g = self.make_geom(kv, m)
+        nside = m.nside_sparse
+        ranges = g.get_pixel_ranges(nside=nside)
+        pixels = g.get_pixels(nside=nside)
+        # hpgeom / GeomBase consistency (real side only): pixels == expand(ranges); with nside_render
+        # the pixels are exactly the children of the pixels rendered at that resolution
+        ok = np.array_equal(np.sort(pixels), np.sort(hpg.pixel_ranges_to_pixels(ranges)))
+        if 'render' in kv and ok:
+            nr = 2 ** int(kv['render'])
+            coarse = g.get_pixels(nside=nr)
+            sh = 2 * int(round(np.log2(nside / nr)))
+            ok = np.array_equal(np.unique(np.right_shift(pixels, sh)), np.sort(coarse)) and \
+                pixels.size == coarse.size * (1 << sh)
+        line = "geom %s %s ranges=%s" % (pos[0], ' '.join("%s=%s" % kv_ for kv_ in kv.items() if kv_[0] not in ('params',)),
+                                        enc.enc_ranges(ranges))
+        try:
+            mode = kv.get('mode', 'ior')
+            op = kv.get('op', 'or')
+            if mode == 'ior':
+                if op == 'or':
+                    m |= g
+                elif op == 'and':
+                    m &= g
+                else:
+                    m += g
+                self.pool[pos[0]] = m
+            elif mode == 'or':
+                self.pool[kv['r']] = (m | g) if op == 'or' else (m & g) if op == 'and' else (m + g)
+            elif mode == 'realize':
+                healsparse.realize_geom(g, m)
+            elif mode == 'getmap':
+                kw = {}
+                if m.is_wide_mask_map:
+                    dt = healsparse.WIDE_MASK
+                else:
+                    dt = m.dtype
+                self.pool[kv['r']] = g.get_map(nside_coverage=m.nside_coverage, nside_sparse=nside, dtype=dt, **kw)
+            elif mode == 'getmaplike':
+                self.pool[kv['r']] = g.get_map_like(m)
+            else:
+                raise BadOp(mode)
+        except BadOp:
+            raise
+        except Exception as e:
+            return 'err ' + type(e).__name__, line
+        return ('ok' if ok else 'pixels-ranges-mismatch'), line
